@@ -2,7 +2,7 @@
   C02 — drain and splice match `Vec::drain` / `Vec::splice` for every range, replacement and
   consumption pattern.  Theorems about the model; tied to /repo by `bin/check C02`.
 -/
-import AnyVecModel.Proofs.Exec
+import AnyVecModel.Proofs.Splice
 namespace AnyVec
 namespace C02
 open World
@@ -102,6 +102,64 @@ theorem drain_drop_closes_gap (w : World) (it : RangeIt) (d : VecSt)
   · intro u hu
     simp [World.vis, List.getElem?_set, Ne.symm hu]
   · simp [World.logDrops_dropLog]
+  · simp
+
+/-- **`Splice::drop`**: whatever was consumed from either end, dropping a splice iterator whose
+replacement consists of `ids` (plain values of the vector's type, honest `len()`, room reservable) leaves
+`take start ++ replacement ++ drop end` of the original elements, destroys exactly the elements that were
+not yielded, and changes nothing else. -/
+theorem splice_drop_replaces (cfg : Cfg) (w : World) (it : RangeIt) (d d1 : VecSt) (es : List Event)
+    (vals : List Val) (ids : List Nat) (hpl : PlainList vals ids d.ty)
+    (hv : w.vecs[it.v]? = some d) (hl : d.live = true) (hf : w.fault = none)
+    (h0 : d.len = it.start) (h1 : it.start ≤ it.index) (h2 : it.index ≤ it.end_) (h3 : it.end_ ≤ it.end0)
+    (h4 : it.end0 ≤ it.origLen) (h5 : it.origLen ≤ d.cells.length) (h6 : d.cells.length ≤ d.cap)
+    (hsmall : it.start + vals.length + (it.origLen - it.end0) ≤ USIZE_MAX)
+    (hres : d.reserve (it.start + vals.length + (it.origLen - it.end0) - it.start) = .ok (d1, es))
+    (hinit : d.InitRange it.index (it.end_ - it.index)) :
+    let r := spliceDrop cfg it vals vals.length w
+    let orig := d.cells.take it.origLen
+    r.2 = .ok () ∧
+      r.1.vis it.v = orig.take it.start ++ ids.map Cell.val ++ orig.drop it.end0 ∧
+      (∀ u, u ≠ it.v → r.1.vis u = w.vis u) ∧
+      r.1.dropLog = (d.idsRange it.index (it.end_ - it.index)).reverse ++ w.dropLog ∧
+      r.1.held = w.held ∧ r.1.created = w.created := by
+  have hlt : it.v < w.vecs.length := (List.getElem?_eq_some_iff.mp hv).1
+  have hidl := hpl.length_eq
+  obtain ⟨d3, he, hlen, _, _, hpre, hmid, hpost⟩ :=
+    spliceDrop_exec cfg w it d d1 es vals ids hpl hv hl hf h0 h1 h2 h3 h4 h5 h6 hsmall hres hinit
+  intro r orig
+  rw [show r = _ from he]
+  refine ⟨rfl, ?_, ?_, ?_, ?_, ?_⟩
+  · simp only [World.vis, List.getElem?_set_self hlt, VecSt.abs]
+    apply take_ext _ _ _ (by simp [orig]; omega) hlen
+    intro k hk
+    simp only [List.getElem?_append, List.length_take, List.length_map, List.getElem?_take, List.getElem?_map,
+      List.getElem?_drop, orig, List.length_append]
+    by_cases hk1 : k < it.start
+    · have hk' : k < d.cells.length := by omega
+      rw [hpre k hk1]
+      simp [hk1, Mem.get_eq, show min it.start (min it.origLen d.cells.length) = it.start by omega,
+        show k < it.origLen by omega, show k < it.start + ids.length by omega]
+    · by_cases hk2 : k < it.start + vals.length
+      · have := hmid (k - it.start) (by omega)
+        rw [show it.start + (k - it.start) = k by omega] at this
+        rw [this]
+        have hki : k - it.start < ids.length := by omega
+        simp [hk1, show min it.start (min it.origLen d.cells.length) = it.start by omega, hki, hidl,
+          show k < it.start + vals.length by omega, List.getD_eq_getElem?_getD, List.getElem?_eq_getElem hki]
+      · have := hpost (k - (it.start + vals.length)) (by omega)
+        rw [show it.start + vals.length + (k - (it.start + vals.length)) = k by omega] at this
+        rw [this]
+        have e1 : min it.start (min it.origLen d.cells.length) = it.start := by omega
+        have hk3 : ¬ k < it.start + ids.length := by omega
+        have hk4 : ¬ k < it.start + vals.length := hk2
+        simp only [e1, hk1, if_false, hidl, hk4, Mem.get_eq]
+        have e2 : it.end0 + (k - it.start - vals.length) < it.origLen := by omega
+        simp [e2, show it.end0 + (k - (it.start + vals.length)) = it.end0 + (k - it.start - vals.length) by omega]
+  · intro u hu
+    simp [World.vis, List.getElem?_set, Ne.symm hu]
+  · simp [World.logDrops_dropLog]
+  · simp
   · simp
 
 /-! non-vacuity -/
